@@ -5,6 +5,7 @@ package main
 // TLC from Mitm.tla; decision cases are exported by the same module.
 
 import (
+	"bytes"
 	"crypto/tls"
 	"crypto/x509"
 	"encoding/json"
@@ -284,7 +285,7 @@ func c07Cases(e *env) {
 					res["ok"], res["why"] = false, why
 				}
 			}
-			host := map[string]string{"dns": "origin.test", "dnsUpper": "ORIGIN.TEST", "ipv4": "127.0.0.1", "ipv6": "[::1]"}[c.C.Auth]
+			host := map[string]string{"dns": "origin.test", "dnsUpper": "ORIGIN.TEST", "ipv4": "127.0.0.1", "ipv6": "[::1]", "ipv6mapped": "[::ffff:127.0.0.1]"}[c.C.Auth]
 			bare := strings.ToLower(strings.Trim(host, "[]"))
 			fc := fwdCfg{Name: "fwd", Localhost: "allow", MITM: true}
 			if c.C.Excluded {
@@ -357,6 +358,9 @@ func c07Cases(e *env) {
 			}
 			if err := verifyChain(chain, mitmCA, want, time.Now()); err != nil {
 				fail(fmt.Sprintf("certificate is not valid for %q: %v (DNS %v IP %v)", want, err, chain[0].DNSNames, chain[0].IPAddresses))
+			} else if ip := net.ParseIP(want); ip != nil && !sanHasOctets(chain[0], want) {
+				// clients that compare address literals octet for octet (RFC 9525 6.5; OpenSSL) need the address in the form asked for
+				fail(fmt.Sprintf("certificate is not valid for %q: no iPAddress name with the octets of that literal (IP %v)", want, chain[0].IPAddresses))
 			}
 			hostHdr := host
 			if c.C.Port != 443 {
@@ -427,4 +431,20 @@ func mustLeaf(c tls.Certificate) *x509.Certificate {
 		fatal("%v", err)
 	}
 	return l
+}
+
+// sanHasOctets: the leaf holds an iPAddress name with exactly the octets of the literal: 4 for an IPv4 literal, 16 for an
+// IPv6 one (an IPv4-mapped IPv6 literal is an IPv6 literal).
+func sanHasOctets(leaf *x509.Certificate, literal string) bool {
+	ip := net.ParseIP(literal)
+	want := []byte(ip.To16())
+	if !strings.Contains(literal, ":") {
+		want = []byte(ip.To4())
+	}
+	for _, a := range leaf.IPAddresses {
+		if bytes.Equal([]byte(a), want) {
+			return true
+		}
+	}
+	return false
 }
